@@ -3,7 +3,7 @@
    operator expression; D A = den ... noforce A is the denotation of coq/model/Linop.v. *)
 From Coq Require Import ZArith List Bool.
 From SV Require Import lib.Scalar lib.BigSum lib.Gather model.Rearrange model.Linop
-  proofs.LinopTheory proofs.LinopLeaves proofs.Rearrange.
+  proofs.LinopTheory proofs.LinopLeaves proofs.Rearrange proofs.LinopScale.
 Import ListNotations.
 Local Open Scope Z_scope.
 
@@ -74,6 +74,29 @@ Theorem C01_adjoint_is_symmetric :
   forall (R : StarRing) si so F G, adjoint_pair R si so F G -> adjoint_pair R so si G F.
 Proof. exact adjoint_pair_sym. Qed.
 Print Assumptions C01_adjoint_is_symmetric.
+
+(* scalar multiples: the leaf Multiply(shape, a) that `a * A`, `A * a`, `-A`, `A - B` are built from, together with
+   the composite Reshape * Sum * Multiply(conj) returned by its _adjoint_linop *)
+Theorem C01_scalar_multiple_adjoint :
+  forall (R : StarRing) arr scal orc i t c,
+    i <> [] -> wf (Multiply i (MScalar t) c) = true -> apair R arr scal orc (Multiply i (MScalar t) c).
+Proof. exact apair_scale. Qed.
+Print Assumptions C01_scalar_multiple_adjoint.
+
+(* NO hypothesis on the nodes: every expression over Conj, +, -, composition, a*A, A*a, -A with Identity / Flip /
+   Downsample / Upsample leaves satisfies <A x, y> = <x, A^H y> with the modelled adjoint *)
+Theorem C01_adjoint_unconditional_fragment :
+  forall (R : StarRing) arr scal orc A,
+    wf A = true -> nodes_ok (fun L => proven_node L = true /\ wf L = true) A ->
+    forall x y, inner (oshape_of A) (D R arr scal orc A x) y = inner (ishape_of A) x (D R arr scal orc (adj A) y).
+Proof. exact adj_correct_proven. Qed.
+Print Assumptions C01_adjoint_unconditional_fragment.
+
+Example C01_fragment_example :
+  let A := op_sub (Compose [Conj (Flip [3; 2] (Some [-1])); Downsample [5; 4] [2; 2] [0; 0]])
+                  (op_lscale 7 (Compose [Flip [3; 2] None; Downsample [5; 4] [2; 2] [0; 0]])) in
+  wf A = true /\ nodes_ok (fun L => proven_node L = true /\ wf L = true) A.
+Proof. vm_compute. repeat split; reflexivity. Qed.
 
 (* non-vacuity: a depth-3 tree mixing Resize / Flip / Downsample / Conj / + / composition is well-formed *)
 Example C01_example_tree_wf :
